@@ -387,8 +387,6 @@ for _n in (1, 2, 3):
         DEFECT_MODELS.append(({d: True for d in _c},
                               "+".join(sorted(DEFECT_SLUGS[d] for d in _c))))
 
-_compiled = {}
-
 
 def compile_prog(prog):
     import scenic
